@@ -27,6 +27,7 @@ type c17Scenario struct {
 	zero         bool // the loop's first pass does not wait (establishRegion)
 	batch        bool
 	two          bool // two regions on two servers, a batch with one call each
+	same         bool // ... two regions of ONE server
 	swap         bool // ... in the other order
 	warm         bool // the region is used successfully first; the failure begins afterwards
 	scan         bool // the entry point is a scanner's Next
@@ -227,6 +228,27 @@ func TestVerifC17(t *testing.T) {
 			all = append(all, m)
 		}
 	}
+	// the same with both regions on ONE server (one multi request, one group of results): the retry-later answer asks for the
+	// back-off whichever of the two results is looked at last
+	oneServer := c17Scenario{name: "retry-later-for-one-region-not-serving-for-another-region-of-the-same-server", tol: 4, batch: true, two: true, same: true,
+		setup: func(cl *verifsim.Cluster, mark func()) {
+			cl.ActionHook = func(rs *verifsim.RS, r *verifsim.Region, op string, row []byte) string {
+				if len(row) == 0 || row[len(row)-1] != '!' {
+					return ""
+				}
+				if row[0] == 'a' {
+					mark()
+					return verifsim.ExcTooBusy
+				}
+				return verifsim.ExcNotServing
+			}
+		}}
+	for rep2 := 0; rep2 < 4; rep2++ {
+		x := oneServer
+		x.swap = rep2%2 == 1
+		x.name = fmt.Sprintf("%s/%d", oneServer.name, rep2)
+		all = append(all, x)
+	}
 	for rep2 := 0; rep2 < 6; rep2++ { // the order in which SendBatch waits for the servers is Go map order: several runs
 		x := twoServers
 		x.swap = rep2%2 == 1
@@ -242,7 +264,9 @@ func TestVerifC17(t *testing.T) {
 			cl := verifsim.NewCluster(tr)
 			cl.AddServer("ms")
 			cl.AddServer("rs1")
-			if s.two {
+			if s.two && s.same {
+				cl.CreateTable("t", [][]byte{[]byte("m")}, []string{"rs1", "rs1"})
+			} else if s.two {
 				cl.AddServer("rs2")
 				cl.CreateTable("t", [][]byte{[]byte("m")}, []string{"rs1", "rs2"})
 			} else if s.loops > 1 {
